@@ -6,7 +6,7 @@ with what the event list - snapshot taken before generate() - denotes (TrackSpec
 import vlib, evgen, mmlgen
 
 COQ_TARGET = "props/C02.v"
-THEOREMS = ["C02_vlq_roundtrip", "C02_track_decodes", "C02_abs_ticks", "C02_normalize", "C02_stable_sort_unique"]
+THEOREMS = ["C02_vlq_roundtrip", "C02_track_decodes", "C02_abs_ticks", "C02_normalize", "C02_stable_sort_unique", "C02_compile_decodes", "C02_events_wf_from_source"]
 RULE = ("constructed songs: 1..40 tracks of 0..30 events of every kind, channels -1..20, values in and out of the 7-bit / "
         "14-bit range, deltas over the whole 0..2^28-1 VLQ range, SysEx/meta payloads 0..400 bytes, shuffled times; plus "
         "compiled MML sources (core-language programs, sample songs and mutations). non-trivial = distinct case whose "
